@@ -1278,7 +1278,7 @@ def same_path_stream(ctx, drv, scratch, n, compressed=True):
             d = read_dump(pth)
             ctx.count(f"lesson/same-path/independent-encoder-bytes/{order}/read#{step + 1}")
             ctx.case(digest=f"same-path/model/{order}/{step}/" + sha(mb), nontrivial=True, sample=None)
-            reqs.append({"op": "spec", "cells": wire, "impl": d[1] if d[0] == "ok" else None})
+            reqs.append({"op": "spec", "cells": wire, "impl": d[1] if d[0] == "ok" else []})
             infos.append((f"from_binary of Model.encode bytes written over an existing path (expects {label}; same size, same "
                           "timestamps)", wire, d, mb))
     for (what, wire, d, mb), out in zip(infos, drv.run(reqs)):
